@@ -198,7 +198,8 @@ pub fn run(p: &Params) -> Report {
     }
     let n = p.budget(4_000, 400_000);
     for i in 0..n {
-        scenario(p.shard_seed(0x16_000 + i), &pool, &mut rep);
+        let seed = p.shard_seed(0x16_000 + i);
+        crate::util::guarded(&mut rep, seed, |rep| scenario(seed, &pool, rep));
     }
     rep
 }
